@@ -52,6 +52,11 @@ def enumerate_synth(ctx, two_records=True):
             recs = [{'e': e, 't': t, 'L': L, 'a': (2 * L + 1) % 255 | 1, 'b': vrl % 251,
                      'tail': '01' * (1 + L % 3) if L % 5 == 0 else ''}]
             if two_records:
+                if L <= 4 * vrl:
+                    # twins of the record: same length and type number with the other explicit/indirect flag, and same
+                    # length and flag with another type number (anything remembered per size must not mix them up)
+                    recs.append(dict(recs[0], e=1 - e))
+                    recs.append(dict(recs[0], t=(t + 1) % 12))
                 recs.append(dict(FILLER2 if e == 0 else FILLER))
             yield {'kind': 'synth', 'vrl': vrl, 'recs': recs}
 
@@ -96,6 +101,13 @@ def synth_cases(draw, min_vrl=20):
         elif draw(st.integers(0, 3)) == 0:
             rec['tail'] = '01' * draw(st.integers(1, 5))
         recs.append(rec)
+        if len(recs) < 8 and draw(st.integers(0, 3)) == 0:
+            twin = dict(rec)
+            if draw(st.booleans()):
+                twin['e'] = 1 - rec['e']
+            else:
+                twin['t'] = (rec['t'] + draw(st.integers(1, 255))) % 256
+            recs.append(twin)
     case = {'kind': 'synth', 'vrl': vrl, 'recs': recs}
     oc = draw(st.integers(0, 4))
     if oc == 1:
